@@ -4,6 +4,10 @@ package main
 // selection. C06.identity — non-directive structure is rebuilt unchanged by process1/process2.
 
 import (
+	"fmt"
+	"go/constant"
+	"go/types"
+	"regexp/syntax"
 	"strings"
 
 	"golang.org/x/tools/go/ssa"
@@ -326,6 +330,35 @@ func ruleDollarCensus(p *Prog, r *Result) {
 		r.Check(ok, "C06.census", "literal "+lit, lits[lit], "begins with $ and a lower-case letter (or $\"): cannot match data that begins with $$", "a directive literal that could match escaped data ($$...): doubling the dollar would no longer protect it")
 	}
 	r.Floor("C06.census", "directive literals in package bkl", n, 15)
+	// a regular expression that contains a literal dollar recognises a directive form: it must be anchored
+	// at the start of the string, like the prefix tests, or escaped data ($$...) can satisfy it further in
+	nre := 0
+	for _, cs := range allCalls(p.Funcs) {
+		pk := fnPkg(cs.Fn)
+		if pk == nil || shortPkg(pk.Pkg.Path()) != "bkl" || (cs.Name != "regexp.MustCompile" && cs.Name != "regexp.Compile" && cs.Name != "regexp.MatchString") {
+			continue
+		}
+		nre++
+		c, isC := cs.Instr.Common().Args[0].(*ssa.Const)
+		if !isC || c.Value == nil || c.Value.Kind() != constant.String {
+			r.Fail("C06.census", p.FuncName(cs.Fn)+" / "+cs.Name+" with a computed pattern", p.InstrPos(cs.Instr), "a pattern built at run time is applied to data: whether escaped ($$) text can trigger it cannot be decided")
+			continue
+		}
+		pat := constant.StringVal(c.Value)
+		re, err := syntax.Parse(pat, syntax.Perl)
+		if err != nil {
+			r.Fail("C06.census", "pattern "+pat, p.InstrPos(cs.Instr), "pattern does not parse: "+err.Error())
+			continue
+		}
+		if !regexpHasDollarLiteral(re) {
+			r.OK("C06.census", "pattern "+pat, p.InstrPos(cs.Instr), "contains no literal dollar: recognises no directive form")
+			continue
+		}
+		re = re.Simplify()
+		anchored := re.Op == syntax.OpBeginText || (re.Op == syntax.OpConcat && len(re.Sub) > 0 && re.Sub[0].Op == syntax.OpBeginText)
+		r.Check(anchored, "C06.census", "pattern "+pat, p.InstrPos(cs.Instr), "the dollar form is recognised only at the very start of the string (like the prefix tests)", "a pattern with a literal $ is not anchored at the start of the string: a directive form is recognised inside other text, so escaped data ($$...) and plain text containing it are evaluated instead of passed through")
+	}
+	r.Count("regexp_patterns", nre)
 	// no Contains / suffix-only / regexp test on raw data with a $ literal
 	for _, cs := range allCalls(p.Funcs) {
 		pk := fnPkg(cs.Fn)
@@ -340,4 +373,85 @@ func ruleDollarCensus(p *Prog, r *Result) {
 			}
 		}
 	}
+}
+
+func regexpHasDollarLiteral(re *syntax.Regexp) bool {
+	if re.Op == syntax.OpLiteral {
+		for _, r := range re.Rune {
+			if r == '$' {
+				return true
+			}
+		}
+	}
+	if re.Op == syntax.OpCharClass {
+		// a small class that names the dollar (e.g. [$@]); wide classes such as [^}] are "any character"
+		size, has := 0, false
+		for i := 0; i+1 < len(re.Rune); i += 2 {
+			size += int(re.Rune[i+1]-re.Rune[i]) + 1
+			if re.Rune[i] <= '$' && '$' <= re.Rune[i+1] {
+				has = true
+			}
+		}
+		if has && size <= 16 {
+			return true
+		}
+	}
+	for _, s := range re.Sub {
+		if regexpHasDollarLiteral(s) {
+			return true
+		}
+	}
+	return false
+}
+
+// ruleC10Universe (C10.universe): cross-document references ($match / [pattern, path]) are resolved
+// against the list of documents handed to evaluation. Where evaluation is started inside a loop, that
+// list must be complete before the first document is evaluated, i.e. it must not change from one
+// iteration to the next (a list still being filled hides later documents from earlier ones, so a
+// forward reference fails and an ambiguous one silently resolves).
+func ruleC10Universe(p *Prog, r *Result) {
+	targets := map[string]bool{"bkl.(*Parser).outputDocument": true, "bkl.(*Document).Process": true, "bkl.process1": true, "bkl.process2": true}
+	n := 0
+	for _, fn := range p.Funcs {
+		pk := fnPkg(fn)
+		if pk == nil || shortPkg(pk.Pkg.Path()) != "bkl" {
+			continue
+		}
+		if targets[p.FuncName(fn)] || strings.HasPrefix(p.FuncName(fn), "bkl.process1") || strings.HasPrefix(p.FuncName(fn), "bkl.process2") {
+			continue // the evaluators pass their own parameter down
+		}
+		var loops []map[*ssa.BasicBlock]bool
+		for _, h := range loopHeaders(fn) {
+			loops = append(loops, loopBody(h))
+		}
+		for _, b := range fn.Blocks {
+			for _, in := range b.Instrs {
+				ci, ok := in.(ssa.CallInstruction)
+				if !ok {
+					continue
+				}
+				sc := ci.Common().StaticCallee()
+				if sc == nil || !targets[p.FuncName(sc)] {
+					continue
+				}
+				for i, a := range ci.Common().Args {
+					sl, ok := a.Type().Underlying().(*types.Slice)
+					if !ok || !strings.HasSuffix(sl.Elem().String(), "bkl.Document") {
+						continue
+					}
+					n++
+					key := fmt.Sprintf("%s / document list passed to %s (argument %d)", p.FuncName(fn), p.FuncName(sc), i)
+					bad := ""
+					for _, body := range loops {
+						if body[b] && !invariantIn(a, body, map[ssa.Value]bool{}) {
+							bad = "the list changes between iterations of the loop in which documents are evaluated"
+						}
+					}
+					r.Check(bad == "", "C10.universe", key, p.InstrPos(in), "the list of documents that references are resolved against is fixed before any document is evaluated",
+						bad+": a document evaluated early cannot see documents added later (forward $match references fail, ambiguous ones resolve silently)")
+				}
+			}
+		}
+	}
+	r.Floor("C10.universe", "evaluation entry call sites with a document list", n, 1)
 }
